@@ -22,6 +22,9 @@
 (*                            governance store as last bound                *)
 (*   checkUpdatesMemory       a finalise request run by CheckTx updated the *)
 (*                            in-memory option copies                       *)
+(*   olvmValidateThroughCache a seeded change (C07-f4): the OLVM validation  *)
+(*                            reads sender data through the EVM state's     *)
+(*                            object cache, which outlives the CheckTx      *)
 (* Every counterexample of a deviation is a schedule the C07 check replays  *)
 (* on the real application (families gov and govfee).                       *)
 (***************************************************************************)
@@ -32,19 +35,21 @@ Fam == {"govern", "validators", "evidence", "balances", "deleg", "rewards", "pro
 (* objects a store pointer can designate: current / previous deliver state, current / previous check state, construction *)
 Obj == {"dc", "do", "cc", "co", "boot"}
 (* what a CheckTx may write in the check state, by kind of request *)
-CheckKinds == {"rejected", "transfer", "vote", "finalise"}
+CheckKinds == {"rejected", "transfer", "vote", "finalise", "olvm"}
 W(k) == CASE k = "rejected" -> {}
           [] k = "transfer" -> {"balances", "fee"}
           [] k = "vote" -> {"proposals", "balances", "fee"}
           [] k = "finalise" -> {"govern", "proposals", "balances", "fee"}
+          [] k = "olvm" -> {}                            \* the OLVM mempool check executes nothing
 
-VARIABLES phase, blocks, checks, ntx, ptr, ctaint, memOpt, viol
-vars == <<phase, blocks, checks, ntx, ptr, ctaint, memOpt, viol>>
+VARIABLES phase, blocks, checks, ntx, ptr, ctaint, memOpt, evmCache, viol
+vars == <<phase, blocks, checks, ntx, ptr, ctaint, memOpt, evmCache, viol>>
 
 Init == /\ phase = "idle" /\ blocks = 0 /\ checks = 0 /\ ntx = 0
         /\ ptr = [f \in Fam |-> "boot"]
         /\ ctaint = [o \in {"cc", "co"} |-> {}]      \* families with check-only writes in that check state
         /\ memOpt = FALSE                             \* the in-memory option copy was set from check-only data
+        /\ evmCache = FALSE                           \* the EVM state's object cache holds an object loaded through a check state
         /\ viol = {}
 
 Tainted(p, f) == p[f] \in {"cc", "co"} /\ f \in ctaint[p[f]]
@@ -56,6 +61,7 @@ CheckTx(k) ==
   /\ ptr' = Reaim(ptr, Fam, "cc")                     \* Action(header, check) re-aims every store
   /\ ctaint' = [ctaint EXCEPT !["cc"] = @ \cup W(k)]
   /\ memOpt' = (memOpt \/ (k = "finalise" /\ "checkUpdatesMemory" \in Deviations))
+  /\ evmCache' = (evmCache \/ (k = "olvm" /\ "olvmValidateThroughCache" \in Deviations))
   /\ UNCHANGED <<phase, blocks, ntx, viol>>
 
 BeginBlock ==
@@ -72,12 +78,14 @@ BeginBlock ==
      IN /\ ptr' = p6
         /\ memOpt' = (rFee # {})                                             \* feePool.SetupOpt(what was just read)
         /\ viol' = viol \cup rFee \cup rProp
-  /\ UNCHANGED <<blocks, checks, ctaint>>
+  /\ UNCHANGED <<blocks, checks, ctaint, evmCache>>
 
-DeliverTx ==
+DeliverTx(olvm) ==
   /\ phase = "open" /\ ntx < MaxTx /\ ntx' = ntx + 1
   /\ ptr' = Reaim(ptr, Fam, "dc")                     \* Action(header, deliver)
   /\ viol' = viol \cup (IF memOpt THEN {<<"DeliverTx.ValidateFee", "memOpt">>} ELSE {})
+                   \cup (IF olvm /\ evmCache THEN {<<"DeliverTx.OLVM", "evmCache">>} ELSE {})
+  /\ evmCache' = IF olvm THEN FALSE ELSE evmCache       \* an EVM execution ends with Finalise, which empties the cache
   /\ UNCHANGED <<phase, blocks, checks, ctaint, memOpt>>
 
 EndBlock ==
@@ -86,15 +94,16 @@ EndBlock ==
          rMem == IF memOpt THEN {<<"EndBlock.distribute", "memOpt">>} ELSE {}
          p2 == Reaim(p1, Fam, "dc")                                          \* Expire / Finalize: Action(header, deliver)
      IN /\ ptr' = p2 /\ viol' = viol \cup rMem
+  /\ evmCache' = FALSE                                \* stateDB.Reset()
   /\ UNCHANGED <<blocks, checks, ntx, ctaint, memOpt>>
 
 Commit ==
   /\ phase = "ended" /\ phase' = "idle" /\ blocks' = blocks + 1
   /\ ptr' = [f \in Fam |-> IF ptr[f] = "cc" THEN "co" ELSE ptr[f]]       \* check := new state; stores keep pointing at the old one
   /\ ctaint' = [cc |-> {}, co |-> ctaint["cc"]]
-  /\ UNCHANGED <<checks, ntx, memOpt, viol>>
+  /\ UNCHANGED <<checks, ntx, memOpt, evmCache, viol>>
 
-Next == BeginBlock \/ DeliverTx \/ EndBlock \/ Commit \/ \E k \in CheckKinds : CheckTx(k)
+Next == BeginBlock \/ (\E o \in BOOLEAN : DeliverTx(o)) \/ EndBlock \/ Commit \/ \E k \in CheckKinds : CheckTx(k)
 Spec == Init /\ [][Next]_vars
 
 NoTaintInConsensus == viol = {}
